@@ -75,6 +75,22 @@ image       = draw:image
 """
 
 
+# ODF 1.2 part 1: 9.1.2 table:table — rows directly or inside header-rows / rows / row-group (groups nest); 9.1.3 a row holds cells and
+# covered cells (the positions behind a merged cell).
+ODS_SHEET = ODS_CELL.replace("tcell       = table:table-cell", "tcell       = table:table-cell") + """
+sheet       = table:table -> hrows rows rgroup row
+hrows       = table:table-header-rows -> row
+rows        = table:table-rows -> row
+rgroup      = table:table-row-group -> hrows rows rgroup row
+row         = table:table-row -> tcell ccell
+ccell       = table:covered-table-cell
+"""
+
+
+def ods_sheet():
+    return parse(ODS_SHEET, NS, "sheet")
+
+
 def odp_page():
     return parse(ODP, NS, "page")
 
